@@ -115,7 +115,13 @@ CheckReport ==
                     \cup {"C16.Cli line differs: " \o S.cli.diff[i] : i \in DOMAIN S.cli.diff}
                     \* the same command with a log level: still the same saved report (C16); the other
                     \* ways of typing it are growth beyond the listed properties (prefix X.)
-                    \cup UNION {CliVariantClauses(S.cli.variants[i], ReportName(S.file)) : i \in DOMAIN S.cli.variants})
+                    \cup UNION {CliVariantClauses(S.cli.variants[i], ReportName(S.file)) : i \in DOMAIN S.cli.variants}
+                    \* the file named on the command line is the one that is read and reported, wherever it
+                    \* lies and whatever reports exist already
+                    \* (not for the key collision K2, where the report has fewer blocks than entries)
+                    \cup (IF Collides \/ (S.cli.elsewhere.rc = 0 /\ S.cli.elsewhere.same) THEN {}
+                          ELSE {"C16.Cli report of a file in another folder (older than an existing report)"})
+                    \cup (IF S.cli.elsewhere.keysok THEN {} ELSE {"C16.ReadBack of a file in another folder"}))
     /\ stage' = "verdict" /\ UNCHANGED <<tid, pos, phase, hadSolution, k>>
 
 Verdict ==
